@@ -5,6 +5,7 @@ import (
 	"encoding/hex"
 	"encoding/json"
 	"fmt"
+	"github.com/jamf/regatta/regattapb"
 	"hash/fnv"
 	"math/rand"
 	"os"
@@ -209,4 +210,17 @@ func hxn(b []byte) string {
 		return "e"
 	}
 	return hx(b)
+}
+
+// txnIsReadonly: every operation of both branches is a range read.  The harness's OWN classification (what
+// the model calls readonly), not regattapb's TxnRequest.IsReadonly, which is part of the code under test.
+func txnIsReadonly(rq *regattapb.TxnRequest) bool {
+	for _, ops := range [][]*regattapb.RequestOp{rq.Success, rq.Failure} {
+		for _, op := range ops {
+			if _, ok := op.Request.(*regattapb.RequestOp_RequestRange); !ok {
+				return false
+			}
+		}
+	}
+	return true
 }
